@@ -365,21 +365,55 @@ func (c *converter) convert(schema core.ZodSchema) (*lib.Schema, error) {
 	return placeholder, nil
 }
 
-func (c *converter) doConvert(schema core.ZodSchema) (*lib.Schema, error) {
-	internals := schema.Internals()
-	var jsonSchema *lib.Schema
-	var err error
+// scratchSchema presents a schema with a private copy of its internals, so that the
+// checks' OnAttach callbacks annotate that copy instead of the schema being converted.
+type scratchSchema struct {
+	core.ZodSchema
+	in *core.ZodTypeInternals
+}
 
-	// Execute OnAttach callbacks so that checks can annotate Bag/metadata
-	for _, chk := range internals.Checks {
-		if zc := chk.Zod(); zc != nil {
-			for _, fn := range zc.OnAttach {
-				if fn != nil {
-					fn(schema)
-				}
+// Internals returns the private copy.
+func (s *scratchSchema) Internals() *core.ZodTypeInternals { return s.in }
+
+// annotatedInternals runs the OnAttach callbacks of every check against a scratch copy of
+// the schema's internals and returns that copy. Conversion is a read-only operation: the
+// schema's own Bag is never written (nor its []string values appended to), so converting a
+// schema cannot change its relatives, later conversions, or race with concurrent use.
+func annotatedInternals(schema core.ZodSchema) *core.ZodTypeInternals {
+	live := schema.Internals()
+	in := *live
+	in.Bag = make(map[string]any, len(live.Bag)+len(live.Checks))
+	for k, v := range live.Bag {
+		if ss, ok := v.([]string); ok {
+			v = slices.Clone(ss)
+		}
+		in.Bag[k] = v
+	}
+	view := &scratchSchema{ZodSchema: schema, in: &in}
+	for _, chk := range in.Checks {
+		zc := chk.Zod()
+		if zc == nil {
+			continue
+		}
+		// Describe/Meta checks annotate the global registry, which is keyed by the
+		// schema itself; every other callback annotates the Bag.
+		var target any = view
+		if zc.Def != nil && (zc.Def.Check == "describe" || zc.Def.Check == "meta") {
+			target = schema
+		}
+		for _, fn := range zc.OnAttach {
+			if fn != nil {
+				fn(target)
 			}
 		}
 	}
+	return &in
+}
+
+func (c *converter) doConvert(schema core.ZodSchema) (*lib.Schema, error) {
+	internals := annotatedInternals(schema)
+	var jsonSchema *lib.Schema
+	var err error
 
 	switch internals.Type {
 	case core.ZodTypeString,
@@ -462,7 +496,7 @@ func (c *converter) doConvert(schema core.ZodSchema) (*lib.Schema, error) {
 	case core.ZodTypeLiteral:
 		jsonSchema, err = c.convertLiteral(schema)
 	case core.ZodTypeFile:
-		jsonSchema, err = c.convertFile(schema)
+		jsonSchema, err = c.convertFile(internals)
 	case core.ZodTypeLazy:
 		jsonSchema, err = c.convertLazy(schema)
 	case core.ZodTypeMap:
@@ -979,15 +1013,19 @@ func (c *converter) applyBag(js *lib.Schema, bag map[string]any) {
 			if f, ok := toFloat(v); ok {
 				js.MaxLength = &f
 			}
-		case "size":
-			if f, ok := toFloat(v); ok {
-				js.MinLength = &f
-				js.MaxLength = &f
-			}
 		case "mime":
 			if mimes, ok := v.([]string); ok && len(mimes) == 1 {
 				js.ContentMediaType = new(mimes[0])
 			}
+		}
+	}
+
+	// An exact size is stricter than any minSize/maxSize bound and writes the same two
+	// keywords; apply it after the loop so the result does not depend on map iteration order.
+	if v, ok := bag["size"]; ok {
+		if f, ok := toFloat(v); ok {
+			js.MinLength = &f
+			js.MaxLength = &f
 		}
 	}
 }
@@ -1301,14 +1339,13 @@ func (c *converter) convertLiteral(schema core.ZodSchema) (*lib.Schema, error) {
 }
 
 // convertFile handles ZodFile -> JSON Schema file representation
-func (c *converter) convertFile(schema core.ZodSchema) (*lib.Schema, error) {
+func (c *converter) convertFile(internals *core.ZodTypeInternals) (*lib.Schema, error) {
 	s := &lib.Schema{
 		Type:            []string{"string"},
 		Format:          new("binary"),
 		ContentEncoding: new("binary"),
 	}
 
-	internals := schema.Internals()
 	c.applyBag(s, internals.Bag) // Bag is applied here.
 
 	// Handle multiple MIME types
